@@ -34,7 +34,7 @@ def strip_obs(h):
     return [{k: v for k, v in s.items() if k != "o"} for s in h]
 
 
-def generate(chk, name, c, *, simulate=None, depth=None, seed=None, invariants=("Inv", "Emit"), properties=(),
+def generate(chk, name, c, *, simulate=None, depth=None, seed=None, invariants=("Emit",), properties=(),
              timeout=1200, max_hist=None, workers=None):
     cfg = vkit.write_cfg(name, c, invariants=invariants, properties=properties, constraint="GenConstraint")
     hists, seen = [], set()
@@ -52,11 +52,14 @@ def generate(chk, name, c, *, simulate=None, depth=None, seed=None, invariants=(
     return hists
 
 
+INV_LIST = ["TypeOK", "SearchSound", "EolSound", "MovesConserve", "FailureUnchanged", "CountsExact", "LedgerExact",
+            "ReportConsistent", "NothingPending", "DisabledSilent", "LoopFlushes"]
+
+
 def model_check(chk, name, c, *, timeout=1200, workers=None):
     """Decide the invariants / action properties on the bounded state graph (hist hidden by the VIEW is not
     possible here because the action properties read hist; the depth bound keeps it finite)."""
-    cfg = vkit.write_cfg(name, c, invariants=["Inv"], properties=["MovesConserve", "FailureUnchanged", "LoopFlushes"],
-                         constraint="GenConstraint")
+    cfg = vkit.write_cfg(name, c, invariants=INV_LIST, constraint="GenConstraint", view="StateView")
     res = vkit.tlc("Evbuffer", cfg, want_prints=False, timeout=timeout, workers=workers or vkit.NCPU)
     chk.add_tlc(name, res)
     return res
